@@ -93,6 +93,7 @@ fn payload_term(rng: &mut Rng, uid: u64) -> OwnedTerm {
 
 /// Every operation x argument class against a directly driven Connection, in one framing mode.
 async fn single_ops(ctx: &Ctx, rng: &mut Rng, epmd: &net::EpmdTable, header_mode: bool, round: usize) {
+    ctx.beat(&format!("single-ops/{}", round));
     let name = format!("s{}{}", if header_mode { "h" } else { "p" }, round);
     let pl = net::listen_as(epmd, &name).await;
     let own_flags = DistributionFlags::default().as_u64() | if header_mode { FLAG_DIST_HDR_ATOM_CACHE } else { 0 };
@@ -278,6 +279,7 @@ async fn single_ops(ctx: &Ctx, rng: &mut Rng, epmd: &net::EpmdTable, header_mode
 /// "Operations before the handshake completes fail without writing" - also when a handshake was attempted and
 /// failed at its last steps: the peer records every byte that arrives after its final handshake message.
 async fn after_failed_handshake(ctx: &Ctx, epmd: &net::EpmdTable, round: usize) {
+    ctx.beat(&format!("after-failed-handshake/{}", round));
     use tokio::io::AsyncReadExt;
     for (k, kind) in ["wrong-ack-digest", "status-nok", "closed-after-reply", "short-ack", "ack-for-another-cookie", "status-alive-then-close"].iter().enumerate() {
         let name = format!("f{}x{}", round, k);
@@ -378,6 +380,7 @@ async fn after_failed_handshake(ctx: &Ctx, epmd: &net::EpmdTable, round: usize) 
 
 /// Many tasks sending through one Node; the peer's byte stream must split into whole frames.
 async fn concurrent(ctx: &Ctx, rng: &mut Rng, epmd: &net::EpmdTable, run_id: usize, with_yields: bool) {
+    ctx.beat(&format!("concurrent/{}", run_id));
     let name = format!("c{}", run_id);
     let pl = net::listen_as(epmd, &name).await;
     let peer_flags = PEER_BASE_FLAGS;
